@@ -20,6 +20,7 @@ pub mod verif_exports {
         magnetic_operations_in_magnetic_cell, operations_in_cell, PrimitiveMagneticSymmetrySearch,
         PrimitiveSymmetrySearch,
     };
+    pub use super::primitive_symmetry_search::verif_search_bravais_group;
     pub use super::solve::{pivot_site_indices, symmetrize_translation_from_permutation};
     pub use super::symmetry_search::{
         iterative_magnetic_symmetry_search, iterative_symmetry_search,
